@@ -7,7 +7,15 @@ VERIF = os.path.dirname(os.path.abspath(__file__))
 sys.path.insert(0, VERIF)
 from vx import registry as R
 props = {json.loads(l)['id']: json.loads(l) for l in open(os.path.join(VERIF, 'properties.jsonl'))}
-only = sys.argv[1:]
+only = [a for a in sys.argv[1:] if not a.startswith('--')]
+ALL = '--all-checks' in sys.argv
+# which source files does each property's machinery read?  (from the evidence the checks wrote: functions under contract and mechanical copies) - a check
+# whose units read none of the files a seed changes cannot change its verdict and is skipped unless --all-checks is given
+import glob
+READS = {}
+for _f in glob.glob(os.path.join(VERIF, 'evidence', 'C*.json')):
+    _d = json.load(open(_f))
+    READS[_d['property_id']] = set(re.findall(r'"(src/[A-Za-z0-9_/.]+\.rs)"', json.dumps(_d.get('coverage', {}))))
 KXP = {p for p, s in R.PROPS.items() if s.get('kx')}
 for name in sorted(os.listdir(os.path.join(VERIF, 'seeded'))):
     if only and name not in only:
@@ -18,6 +26,7 @@ for name in sorted(os.listdir(os.path.join(VERIF, 'seeded'))):
     subprocess.run('rm -rf %s && mkdir -p %s && git -C /repo archive HEAD | tar -x -C %s' % (scratch, scratch, scratch), shell=True, check=True)
     ap = subprocess.run(['git', 'apply', os.path.join(d, 'patch.diff')], capture_output=True, text=True, cwd=scratch)
     res = {}
+    patched = set(re.findall(r'^\+\+\+ b/(\S+)', open(os.path.join(d, 'patch.diff')).read(), flags=re.M))
     if ap.returncode != 0:
         res = {'_apply': 'patch does not apply to the current /repo: ' + ap.stderr[:300]}
     else:
@@ -27,6 +36,8 @@ for name in sorted(os.listdir(os.path.join(VERIF, 'seeded'))):
                     # Kani groups are slow to rebuild: run them only for their own property's seeds ...
                     pass
                 if p in KXP and p != pid:
+                    continue
+                if not ALL and p != pid and not (READS.get(p, set()) & patched):
                     continue
                 r = subprocess.run([os.path.join(VERIF, 'check'), p, '--no-evidence', '--src', scratch], capture_output=True, text=True, cwd=VERIF)
                 obl = sorted(set(re.findall(r'replay=\S*/replay/%s-([^ ]+?)\.json' % p, r.stdout)))
